@@ -143,6 +143,24 @@ def eval_images_doc(doc, mode="fresh"):
         parsed = json.loads(json.dumps(doc))
         call(pi.Images().deserialize, parsed)
         r = call(im.deserialize, parsed)
+    elif mode == "fresh":
+        # the same document with its arch tables written in sorted key order ('src' between i386 and x86_64) and in reversed
+        # order ('src' first): the re-filing must not depend on where the 'src' table stands in the file
+        r = call(im.loads, json.dumps(doc))
+        if r[0] == "ok":
+            base = B.observe(im)["cells"]
+            for how in ("sorted", "reversed"):
+                d2 = json.loads(json.dumps(doc))
+                for v in d2["payload"]["images"]:
+                    t = d2["payload"]["images"][v]
+                    keys = sorted(t) if how == "sorted" else list(reversed(list(t)))
+                    d2["payload"]["images"][v] = {k: t[k] for k in keys}
+                other = pi.Images()
+                r2 = call(other.loads, json.dumps(d2))
+                if r2[0] != "ok" or B.observe(other)["cells"] != base:
+                    im = other                   # (judge the deviating reading: it is compared with the model below)
+                    r = r2
+                    break
     else:
         r = call(im.loads, json.dumps(doc))
     if r[0] != "ok":
